@@ -420,6 +420,18 @@ func c15cases(c *h.Ctx) []fileCase {
 		cases = append(cases, fileCase{name: "text:inclusion-" + k, ext: ".yaml", content: v})
 	}
 	cases = append(cases, fileCase{name: "env_file:missing", ext: ".yaml", content: ef})
+	// an imported directory in which several files are broken at once, in every combination of kinds
+	brokenKinds := map[string]string{"syntax": "tasks: [unclosed\n  - {\n", "syntax2": "x: \"never closed\n", "missing-import": "import: [\"gone.yaml\"]\n", "scalar-import": "import: 7\n", "tabs": "\tk: v\n"}
+	bk := []string{"syntax", "syntax2", "missing-import", "scalar-import", "tabs"}
+	for i := range bk {
+		for j := range bk {
+			aux := map[string]string{"many/a-" + bk[i] + ".yaml": brokenKinds[bk[i]], "many/b-ok.yaml": "tasks: {okt: {command: [\"true\"]}}\n", "many/c-" + bk[j] + ".yaml": brokenKinds[bk[j]], "many/d-" + bk[(i+j)%5] + ".yaml": brokenKinds[bk[(i+j)%5]]}
+			cases = append(cases, fileCase{name: "import-directory-with-several-broken-files/" + bk[i] + "+" + bk[j], ext: ".yaml", content: "import: [\"many\"]\ntasks: {t1: {command: [\"true\"]}}\n", aux: aux})
+		}
+	}
+	// stages that include a pipeline and carry every kind of stage key (what `validate`, `graph`, `show` walk over)
+	cases = append(cases, fileCase{name: "including-stage-with-all-stage-keys", ext: ".yaml", content: "tasks: {t1: {command: [\"true\"]}}\npipelines:\n  p2: [{task: t1}]\n  p1:\n    - {name: inc, pipeline: p2, variables: {A: b, N: 3}, env: {E: \"1\"}, dir: \".\", condition: \"true\", allow_failure: true}\n    - {task: t1, depends_on: [inc], variables: {Unused: x}}\n"})
+	cases = append(cases, fileCase{name: "including-stage-with-all-stage-keys", ext: ".json", content: "{\"tasks\": {\"t1\": {\"command\": [\"true\"]}}, \"pipelines\": {\"p2\": [{\"task\": \"t1\"}], \"p1\": [{\"name\": \"inc\", \"pipeline\": \"p2\", \"variables\": {\"A\": \"b\"}, \"env\": {\"E\": \"1\"}}, {\"task\": \"t1\", \"depends_on\": [\"inc\"]}]}}"})
 	cases = append(cases, fileCase{name: "env_file:directory", ext: ".yaml", content: ef, aux: map[string]string{"custom.env/x": "1"}})
 	cases = append(cases, fileCase{name: "env_file:absolute-missing", ext: ".yaml", content: strings.Replace(ef, "custom.env", "/nonexistent/dir/x.env", 1)})
 	return cases
@@ -494,7 +506,7 @@ func c15(c *h.Ctx) {
 					}
 				}
 				if again == 3 {
-					c.Violate("hang/"+fc.name, fmt.Sprintf("taskctl %s did not finish within 10 s (four times) on %s", strings.Join(args[2:], " "), fc.name), cas)
+					c.Violate("hang/"+fc.name, fmt.Sprintf("taskctl %s did not finish within 10 s (four times) on %s", args[len(args)-1], fc.name), cas)
 				} else {
 					c.Inconclusive("watchdog fired once for " + fc.name)
 				}
